@@ -4,7 +4,7 @@ import os, json
 NAMESPACE = 'C17'
 LEAN_TARGETS = ['MxV.Props.C17']
 THEOREMS = ['write_validates_first', 'write_atomic', 'write_has_expected_shape', 'write_content', 'open_sites_locale_free',
-            'io_locale_independent']
+            'io_locale_independent', 'write_independent_of_old', 'write_idempotent', 'failed_write_keeps_previous']
 TRUSTED_BASE = ['Lean 4.33.0 kernel', 'axioms: propext, Quot.sound only',
                 'extract/shapes.py (AST -> effect list of XMLScorePartwise.write and every open()/read_text/write_text site of the runtime modules)',
                 'the OS file API and CPython io layer (open(..., "w") truncates; text layer encodes with the given encoding)',
